@@ -48,8 +48,33 @@ fn classify(r: &PExec) -> Outcome {
             }
             TransactionOutcome::Failure(e) => Outcome::Other(format!("commit-failure:{}", rv_ledger::monitors::error_class(e))),
         },
+        TransactionResult::Reject(r) => {
+            // a limit hit before the fee loan is repaid rejects the transaction
+            let s = format!("{:?}", r.reason);
+            match parse_limit_error(&s) {
+                Some(o) => o,
+                None => Outcome::Other(rv_ledger::outcome_class(receipt)),
+            }
+        }
         _ => Outcome::Other(rv_ledger::outcome_class(receipt)),
     }
+}
+
+/// Parse `TransactionLimitsError(Variant { actual: a, max: m })` out of a Debug rendering.
+fn parse_limit_error(e: &str) -> Option<Outcome> {
+    let pos = e.find("TransactionLimitsError(")?;
+    let rest = &e[pos + "TransactionLimitsError(".len()..];
+    let name: String = rest.chars().take_while(|c| c.is_alphanumeric()).collect();
+    let num = |tag: &str| -> Option<usize> {
+        let p = rest.find(tag)?;
+        let digits: String = rest[p + tag.len()..].chars().take_while(|c| c.is_ascii_digit()).collect();
+        digits.parse().ok()
+    };
+    let am = match (num("actual: "), num("max: ")) {
+        (Some(a), Some(m)) if rest.find("actual: ").unwrap() < 80 => Some((a, m)),
+        _ => None,
+    };
+    Some(Outcome::Limit(name, am))
 }
 
 struct Bench {
@@ -253,6 +278,7 @@ fn one_quantity(shard: &mut Shard, b: &mut Bench, rng: &mut Rng, q: &str, base: 
         "value_size" => {
             let l = limits.max_substate_value_size.min(400_000);
             limits.max_substate_value_size = l;
+            limits.max_invoke_input_size = limits.max_invoke_input_size.max(l + 100_000);
             let (Some(p0), Some(p1)) = (payload_for_entry_len(l), payload_for_entry_len(l + 1)) else {
                 shard.count("c49:unreachable_size_skipped");
                 return;
@@ -268,6 +294,9 @@ fn one_quantity(shard: &mut Shard, b: &mut Bench, rng: &mut Rng, q: &str, base: 
             // objective size of the largest invocation argument = kernel hook (bytes of the args value)
             let l = limits.max_invoke_input_size.min(300_000);
             limits.max_invoke_input_size = l;
+            // size of an invocation = bytes identifying the callee + bytes of the argument value (KernelInvocation::len);
+            // the largest one is the root call TransactionProcessor::run (it contains the whole manifest)
+            let root_actor = NodeId::LENGTH + "TransactionProcessor".len() + "run".len();
             let prog = |p: usize| vec![Op::FieldOp { handle: ACTOR_STATE_SELF, index: 0, mode: 0, payload: vec![7u8; p] }];
             let mut p = l.saturating_sub(600);
             let mut found = None;
@@ -276,7 +305,7 @@ fn one_quantity(shard: &mut Shard, b: &mut Bench, rng: &mut Rng, q: &str, base: 
                 if o != Outcome::Success {
                     break;
                 }
-                let m = b.world.ledger.last_hooks.max_payload;
+                let m = b.world.ledger.last_hooks.max_payload + root_actor;
                 if m == l {
                     found = Some(p);
                     break;
@@ -288,7 +317,7 @@ fn one_quantity(shard: &mut Shard, b: &mut Bench, rng: &mut Rng, q: &str, base: 
                 return;
             };
             let (o1, _) = b.run(shard, "c49:invoke_payload:measure+1", prog(p + 1), None);
-            let m1 = b.world.ledger.last_hooks.max_payload;
+            let m1 = b.world.ledger.last_hooks.max_payload + root_actor;
             if o1 != Outcome::Success || m1 != l + 1 {
                 shard.count("c49:unreachable_size_skipped");
                 return;
@@ -300,14 +329,16 @@ fn one_quantity(shard: &mut Shard, b: &mut Bench, rng: &mut Rng, q: &str, base: 
         "call_depth" => {
             let l = limits.max_call_depth;
             let pkg = b.world.pkg[rng.usize_below(2)];
-            let (o0, _) = b.run(shard, "c49:call_depth:measure", vec![Op::Recurse { package: pkg, depth: 1 }], None);
+            let mut generous = limits;
+            generous.max_call_depth = 64;
+            let (o0, _) = b.run(shard, "c49:call_depth:measure", vec![Op::Recurse { package: pkg, depth: 1 }], Some(generous));
             let d1 = b.world.ledger.last_hooks.max_depth;
             if o0 != Outcome::Success || d1 > l {
                 shard.count("c49:baseline_failed");
                 return;
             }
             let d = (1 + l - d1) as u32;
-            let (om, _) = b.run(shard, "c49:call_depth:measure", vec![Op::Recurse { package: pkg, depth: d }], None);
+            let (om, _) = b.run(shard, "c49:call_depth:measure", vec![Op::Recurse { package: pkg, depth: d }], Some(generous));
             let dm = b.world.ledger.last_hooks.max_depth;
             if om != Outcome::Success || dm != l {
                 // harness assumption (one frame per recursion level) does not hold: nothing to judge
@@ -341,14 +372,16 @@ fn one_quantity(shard: &mut Shard, b: &mut Bench, rng: &mut Rng, q: &str, base: 
             // bisection for the smallest limit under which prog(n) commits
             let mut hi = if heap { limits.max_heap_substate_total_bytes } else { limits.max_track_substate_total_bytes };
             let mut lo = 0usize;
-            let (oh, _) = b.run(shard, "c49:bytes:search", prog(n), Some(with(&limits, hi)));
+            let (oh, rh) = b.run(shard, "c49:bytes:search", prog(n), Some(with(&limits, hi)));
+            let oh = step_level(&rh, oh);
             if oh != Outcome::Success {
                 shard.count("c49:baseline_failed");
                 return;
             }
             while hi - lo > 1 {
                 let mid = lo + (hi - lo) / 2;
-                let (o, _) = b.run(shard, "c49:bytes:search", prog(n), Some(with(&limits, mid)));
+                let (o, ro) = b.run(shard, "c49:bytes:search", prog(n), Some(with(&limits, mid)));
+                let o = step_level(&ro, o);
                 match o {
                     Outcome::Success => hi = mid,
                     Outcome::Limit(ref v, _) if v == expected_variant(q) => lo = mid,
@@ -363,17 +396,21 @@ fn one_quantity(shard: &mut Shard, b: &mut Bench, rng: &mut Rng, q: &str, base: 
             shard.count(&format!("c49:{q}:thresholds_found"));
             shard.max(&format!("c49:{q}:threshold"), t as u64);
             // program below its own threshold: must report actual == T
-            let (below, _) = b.run(shard, "c49:bytes:T-1", prog(n), Some(with(&limits, t - 1)));
+            let (below, rb) = b.run(shard, "c49:bytes:T-1", prog(n), Some(with(&limits, t - 1)));
+            let below = step_level(&rb, below);
             match &below {
                 Outcome::Limit(v, Some((actual, max))) if v == expected_variant(q) && *actual == t && *max == t - 1 => shard.count(&format!("c49:{q}:self_report_consistent")),
                 other => shard.violation(format!("{q}:limit-error-reports-actual-not-above-max"), detail(q, &limits, t - 1, &format!("program with threshold {t}"), other)),
             }
             // L = T: program needing T succeeds, program needing T+1 fails, and succeeds at T+1
             let lim_t = with(&limits, t);
-            let (a, _) = b.run(shard, "c49:bytes:L", prog(n), Some(lim_t));
-            let (c, _) = b.run(shard, "c49:bytes:L+1", prog(n + 1), Some(lim_t));
+            let (a, ra) = b.run(shard, "c49:bytes:L", prog(n), Some(lim_t));
+            let a = step_level(&ra, a);
+            let (c, rc) = b.run(shard, "c49:bytes:L+1", prog(n + 1), Some(lim_t));
+            let c = step_level(&rc, c);
             judge_pair(shard, q, &lim_t, t, &format!("program using {t} bytes (payload {n})"), &a, &format!("same program with one more payload byte"), &c);
-            let (e, _) = b.run(shard, "c49:bytes:L+1@T+1", prog(n + 1), Some(with(&limits, t + 1)));
+            let (e, re) = b.run(shard, "c49:bytes:L+1@T+1", prog(n + 1), Some(with(&limits, t + 1)));
+            let e = step_level(&re, e);
             if e != Outcome::Success {
                 shard.violation(format!("{q}:failed-at-exactly-the-limit"), detail(q, &limits, t + 1, "program with one more payload byte than the T-program", &e));
             } else {
@@ -398,9 +435,8 @@ fn step_level(r: &PExec, tx: Outcome) -> Outcome {
     for ev in &r.trace {
         if let TraceEv::Step(s) = ev {
             if let Err(e) = &s.result {
-                if let Some(pos) = e.find("TransactionLimitsError(") {
-                    let name: String = e[pos + "TransactionLimitsError(".len()..].chars().take_while(|c| c.is_alphanumeric()).collect();
-                    return Outcome::Limit(name, None);
+                if let Some(o) = parse_limit_error(e) {
+                    return o;
                 }
                 return Outcome::Other(format!("step-error:{}", crate::c50::err_class(e)));
             }
@@ -416,7 +452,7 @@ pub fn run(args: &Args) -> i32 {
         "boundary probes: for random LimitParameters overrides and each of 10 limited quantities (event count, log count, event size, log size, substate key size, substate value size, invoke payload size, call depth, heap substate bytes, track substate bytes) a SysProbe program producing exactly L and one producing L+1 run from the same ledger snapshot; heap/track thresholds by bisection (≈25 runs each); distinct = distinct (quantity, L, outcome pair)",
     )
     .assume("event count = events emitted during execution (the receipt's events before the first finalization PayFeeEvent); fee-finalization events are appended after the limit check")
-    .assume("invoke payload and call depth are measured by the kernel hook (bytes of the invocation argument value, depth of the entered frame); heap/track byte accounting is the engine's own (the check is exactness of the threshold: +1 byte <=> +1 limit, and the self-reported actual == max+1)")
+    .assume("invoke payload size = bytes identifying the callee (node id / package address, blueprint and function names) + bytes of the argument value, as the kernel defines it; the argument bytes and the depth of entered frames are measured by the kernel hook; heap/track byte accounting is the engine's own (the check is exactness of the threshold: +1 byte <=> +1 limit, and the self-reported actual == max+1)")
     .assume("limit configurations keep max_event_size >= 64 (the system's own LockFeeEvent must fit) and key/value/payload limits above the sizes of the system's own substates and invocations");
     for q in QUANTITIES {
         spec = spec.floor(&format!("c49:{q}:success_at_L"), args.tier.pick(60, 2000)).floor(&format!("c49:{q}:failure_at_L_plus_1:{}", expected_variant(q)), args.tier.pick(60, 2000));
